@@ -305,6 +305,7 @@ func main() {
 		code int
 		out  string
 		id   int
+		spec *props.Spec
 	}
 	ch := make(chan wr, *jobs)
 	for i := 0; i < *jobs; i++ {
@@ -312,7 +313,7 @@ func main() {
 			DeadlineMS: deadline.UnixMilli(), MaxRuns: *maxRuns, OutDir: scratch, ID: i, StuckS: 60}
 		go func() {
 			r, c, o := runWorker(bin, sp, time.Duration(bud)*time.Second+5*time.Minute)
-			ch <- wr{r, c, o, sp.ID}
+			ch <- wr{r, c, o, sp.ID, sp}
 		}()
 	}
 	agg := &props.Result{Probes: map[string]int{}, Faults: map[string]int{}, OtherProps: map[string]int{}}
@@ -335,6 +336,24 @@ func main() {
 					_ = props.SaveCase(j, c)
 					agg.Violations = append(agg.Violations, props.ViolRec{Prop: prop, Class: "process-crash", Msg: c.Violation.Msg, Path: j, Run: c.Run})
 					attributed = true
+				}
+			}
+			if !attributed && w.code != 124 && w.spec != nil {
+				// deterministic runs: execute the same run indices again, this time
+				// journalling every run, to find the one that kills the process
+				sp2 := *w.spec
+				sp2.JournalAll = true
+				sp2.ID = 700 + w.id
+				sp2.DeadlineMS = time.Now().Add(time.Duration(bud) * time.Second).UnixMilli()
+				r2, _, o2 := runWorker(bin, &sp2, time.Duration(bud)*time.Second+2*time.Minute)
+				if r2 == nil {
+					j := filepath.Join(scratch, fmt.Sprintf("journal-%d.json", sp2.ID))
+					if c, err := props.LoadCase(j); err == nil {
+						c.Violation = &work.Violation{Prop: prop, Class: "process-crash", Msg: "the process died while executing this run :: " + firstPanicLine(o2)}
+						_ = props.SaveCase(j, c)
+						agg.Violations = append(agg.Violations, props.ViolRec{Prop: prop, Class: "process-crash", Msg: c.Violation.Msg, Path: j, Run: c.Run})
+						attributed = true
+					}
 				}
 			}
 			if !attributed {
